@@ -245,5 +245,6 @@ fn main() {
             2
         }
     };
+    let code = if ctx.fragment.is_none() { supervisor::fuzz_poststep(&ctx, code) } else { code };
     std::process::exit(code);
 }
